@@ -1,6 +1,7 @@
 package pathint
 
 import (
+	"astverif/bitdom"
 	"fmt"
 	"go/token"
 	"go/types"
@@ -42,9 +43,17 @@ func (st *State) exec(in ssa.Instruction) []*State {
 		}
 		st.store(a, sv)
 	case *ssa.UnOp:
-		st.vals[x] = st.unop(x)
+		v := st.unop(x)
+		if ip.TrackBits {
+			v = st.bitsUnop(x, v)
+		}
+		st.vals[x] = v
 	case *ssa.BinOp:
-		st.vals[x] = st.binop(x)
+		v := st.binop(x)
+		if ip.TrackBits {
+			v = st.bitsBinop(x, v)
+		}
+		st.vals[x] = v
 	case *ssa.FieldAddr:
 		base := st.eval(x.X)
 		if ip.Hooks != nil {
@@ -79,7 +88,7 @@ func (st *State) exec(in ssa.Instruction) []*State {
 			ip.Hooks.Index(st, x, lin.Const(at.Len()), idx, true)
 		}
 		_ = base
-		st.vals[x] = ip.symbolic(x.Type(), ("%"+st.Fn.Name()+":"+x.Name()), st)
+		st.vals[x] = ip.symbolic(x.Type(), ("%" + st.Fn.Name() + ":" + x.Name()), st)
 	case *ssa.Slice:
 		st.vals[x] = st.slice(x)
 	case *ssa.MakeSlice:
@@ -92,7 +101,11 @@ func (st *State) exec(in ssa.Instruction) []*State {
 		// element contents are not tracked as zero: callees and library calls fill buffers
 		st.vals[x] = Val{K: KSlice, S: &SliceV{ID: id, Len: n, Cap: c, IsNil: No}}
 	case *ssa.Convert:
-		st.vals[x] = st.convert(x)
+		v := st.convert(x)
+		if ip.TrackBits {
+			v = st.bitsConvert(x, v)
+		}
+		st.vals[x] = v
 	case *ssa.ChangeType:
 		st.vals[x] = st.eval(x.X)
 	case *ssa.MakeInterface:
@@ -100,13 +113,13 @@ func (st *State) exec(in ssa.Instruction) []*State {
 	case *ssa.ChangeInterface:
 		st.vals[x] = st.eval(x.X)
 	case *ssa.SliceToArrayPointer:
-		st.vals[x] = ip.symbolic(x.Type(), ("%"+st.Fn.Name()+":"+x.Name()), st)
+		st.vals[x] = ip.symbolic(x.Type(), ("%" + st.Fn.Name() + ":" + x.Name()), st)
 	case *ssa.Extract:
 		t := st.eval(x.Tuple)
 		if t.K == KTuple && x.Index < len(t.Tup) {
 			st.vals[x] = t.Tup[x.Index]
 		} else {
-			st.vals[x] = ip.symbolic(x.Type(), ("%"+st.Fn.Name()+":"+x.Name()), st)
+			st.vals[x] = ip.symbolic(x.Type(), ("%" + st.Fn.Name() + ":" + x.Name()), st)
 		}
 	case *ssa.Call:
 		return st.call(x)
@@ -127,18 +140,18 @@ func (st *State) exec(in ssa.Instruction) []*State {
 			if ov := st.eval(x.X); ov.Sym != "" {
 				okKey = "isa:" + ov.Sym + ":" + types.TypeString(x.AssertedType, nil)
 			}
-			st.vals[x] = Val{K: KTuple, Tup: []Val{ip.symbolic(x.AssertedType, ("%"+st.Fn.Name()+":"+x.Name()), st),
+			st.vals[x] = Val{K: KTuple, Tup: []Val{ip.symbolic(x.AssertedType, ("%" + st.Fn.Name() + ":" + x.Name()), st),
 				{K: KBool, B: &Cond{Op: CPred, Key: okKey}}}}
 		} else {
-			st.vals[x] = ip.symbolic(x.AssertedType, ("%"+st.Fn.Name()+":"+x.Name()), st)
+			st.vals[x] = ip.symbolic(x.AssertedType, ("%" + st.Fn.Name() + ":" + x.Name()), st)
 		}
 	case *ssa.Lookup:
 		if x.CommaOk {
 			el := x.X.Type().Underlying().(*types.Map).Elem()
-			st.vals[x] = Val{K: KTuple, Tup: []Val{ip.symbolic(el, ("%"+st.Fn.Name()+":"+x.Name()), st),
+			st.vals[x] = Val{K: KTuple, Tup: []Val{ip.symbolic(el, ("%" + st.Fn.Name() + ":" + x.Name()), st),
 				{K: KBool, B: &Cond{Op: CPred, Key: ip.fresh("mapok")}}}}
 		} else {
-			st.vals[x] = ip.symbolic(x.Type(), ("%"+st.Fn.Name()+":"+x.Name()), st)
+			st.vals[x] = ip.symbolic(x.Type(), ("%" + st.Fn.Name() + ":" + x.Name()), st)
 		}
 	case *ssa.Next:
 		tt := x.Type().(*types.Tuple)
@@ -149,7 +162,7 @@ func (st *State) exec(in ssa.Instruction) []*State {
 		st.vals[x] = Val{K: KTuple, Tup: tup}
 	case ssa.Value:
 		// MakeClosure, MakeMap, MakeChan, Range, Select …
-		st.vals[x] = ip.symbolic(x.Type(), ("%"+st.Fn.Name()+":"+x.Name()), st)
+		st.vals[x] = ip.symbolic(x.Type(), ("%" + st.Fn.Name() + ":" + x.Name()), st)
 		if _, ok := x.(*ssa.MakeMap); ok {
 			st.vals[x] = Val{K: KUnknown, Sym: ip.fresh("map")}
 		}
@@ -186,7 +199,7 @@ func (st *State) unop(x *ssa.UnOp) Val {
 		}
 		a := st.asAddr(pv, x.X.Type())
 		if !a.ok {
-			return ip.symbolic(x.Type(), ("%"+st.Fn.Name()+":"+x.Name()), st)
+			return ip.symbolic(x.Type(), ("%" + st.Fn.Name() + ":" + x.Name()), st)
 		}
 		return st.load(a)
 	case token.NOT:
@@ -200,7 +213,7 @@ func (st *State) unop(x *ssa.UnOp) Val {
 			return IntVal(v.F.Scale(-1))
 		}
 	}
-	return ip.symbolic(x.Type(), ("%"+st.Fn.Name()+":"+x.Name()), st)
+	return ip.symbolic(x.Type(), ("%" + st.Fn.Name() + ":" + x.Name()), st)
 }
 
 func (st *State) opaqueInt(x ssa.Value, lo, hi int64) Val {
@@ -336,7 +349,7 @@ func (st *State) binop(x *ssa.BinOp) Val {
 			return Val{K: KBool, B: &Cond{Op: COr, X: a.B, Y: b.B}}
 		}
 	}
-	return ip.symbolic(x.Type(), ("%"+st.Fn.Name()+":"+x.Name()), st)
+	return ip.symbolic(x.Type(), ("%" + st.Fn.Name() + ":" + x.Name()), st)
 }
 
 // wrapCheck: unsigned arithmetic that may wrap is not linear; keep the form only when the result
@@ -479,7 +492,7 @@ func (st *State) convert(x *ssa.Convert) Val {
 	if v.K == KSlice {
 		return v
 	}
-	return ip.symbolic(x.Type(), ("%"+st.Fn.Name()+":"+x.Name()), st)
+	return ip.symbolic(x.Type(), ("%" + st.Fn.Name() + ":" + x.Name()), st)
 }
 
 func (st *State) sliceLenCap(v Val, t types.Type) (ln, cp lin.Form, id string, ok bool) {
@@ -652,7 +665,6 @@ func (st *State) call(x *ssa.Call) []*State {
 	return []*State{st}
 }
 
-
 // isPurePredicate: a package function whose parameters are all integers/booleans, whose single result
 // is a bool and whose body neither stores, nor calls anything but other pure predicates.
 func (ip *Interp) isPurePredicate(f *ssa.Function) bool {
@@ -804,7 +816,7 @@ func (st *State) builtin(x *ssa.Call, name string, args []Val) Val {
 			return Val{K: KSlice, S: &SliceV{ID: ip.fresh("append"), Len: lin.Sym(ls), Cap: lin.Sym(ls)}}
 		}
 	}
-	return ip.symbolic(x.Type(), ("%"+st.Fn.Name()+":"+x.Name()), st)
+	return ip.symbolic(x.Type(), ("%" + st.Fn.Name() + ":" + x.Name()), st)
 }
 
 func (st *State) iterCall(x *ssa.Call, method string, args []Val) Val {
@@ -825,12 +837,18 @@ func (st *State) iterCall(x *ssa.Call, method string, args []Val) Val {
 		st.pending[errSym] = pendingAdv{it: it.ID, adv: lin.Const(1)}
 		b := resName + ".b"
 		ip.SetBounds(b, 0, 255)
+		if ip.TrackBits {
+			st.Events = append(st.Events, Event{Kind: "fetch", Obj: it.ID, Off: cur, Width: lin.Const(1), Val: IntVal(lin.Sym(b)), Pos: x.Pos(), ID: b})
+		}
 		return Val{K: KTuple, Tup: []Val{IntVal(lin.Sym(b)), {K: KErr, Sym: errSym}}}
 	case "NextBytes", "NextBytesNoCopy":
 		n := st.intOf(args[1], types.Typ[types.Int], "n")
 		errSym := resName + ".err"
 		st.pending[errSym] = pendingAdv{it: it.ID, adv: n}
 		ev := resName + ".ev"
+		if ip.TrackBits {
+			st.Events = append(st.Events, Event{Kind: "fetch", Obj: it.ID, Off: cur, Width: n, Val: Val{K: KSlice, S: &SliceV{ID: ev, Len: n, Cap: n, Event: ev, IsNil: No}}, Pos: x.Pos(), ID: ev})
+		}
 		return Val{K: KTuple, Tup: []Val{{K: KSlice, S: &SliceV{ID: ev, Len: n, Cap: n, Event: ev, IsNil: No}}, {K: KErr, Sym: errSym}}}
 	case "Skip":
 		n := st.intOf(args[1], types.Typ[types.Int], "n")
@@ -1090,6 +1108,19 @@ func (st *State) instText(s string, paramVal map[string]Val, inst string) string
 }
 
 func (st *State) instVal(v Val, paramVal map[string]Val, inst string, objMap map[string]*Obj) Val {
+	r := st.instVal0(v, paramVal, inst, objMap)
+	if bv, ok := v.Bits.(bitdom.Vec); ok && (r.K == KInt || r.K == KBool) {
+		nv := st.instVec(bv, paramVal, inst)
+		if r.K == KInt && !r.F.IsConst() || r.K == KBool && r.B != nil && r.B.Op != CConst {
+			r = st.withBits(r, nv)
+		} else {
+			r.Bits = nv
+		}
+	}
+	return r
+}
+
+func (st *State) instVal0(v Val, paramVal map[string]Val, inst string, objMap map[string]*Obj) Val {
 	switch v.K {
 	case KInt:
 		return IntVal(st.instForm(v.F, paramVal, inst))
@@ -1201,6 +1232,19 @@ func (st *State) instKey(k string, paramVal map[string]Val, inst string) string 
 // bindOutcome applies one callee outcome to the caller state; false if infeasible.
 func (st *State) bindOutcome(f *ssa.Function, o *Outcome, paramVal map[string]Val, inst string) (bool, []Val) {
 	objMap := map[string]*Obj{}
+	if st.ip.TrackBits && len(o.Defs) > 0 {
+		keys := make([]string, 0, len(o.Defs))
+		for k := range o.Defs {
+			keys = append(keys, k)
+		}
+		sort.Strings(keys)
+		for _, k := range keys {
+			if strings.Contains(k, "$") {
+				continue
+			}
+			st.setDef(IntVal(lin.Sym(inst+k)), st.instVec(o.Defs[k], paramVal, inst))
+		}
+	}
 	// facts
 	for _, ft := range o.Facts {
 		g := st.instForm(ft.F, paramVal, inst)
@@ -1255,6 +1299,11 @@ func (st *State) bindOutcome(f *ssa.Function, o *Outcome, paramVal map[string]Va
 			}
 		}
 	}
+	// events are positioned relative to the ghost counters at the call: instantiate them before the effects
+	var newEvents []Event
+	for _, e := range o.Events {
+		newEvents = append(newEvents, st.instEvent(e, paramVal, inst, objMap))
+	}
 	// memory effects: parameter-rooted cells and result objects
 	keys := make([]string, 0, len(o.Mem))
 	for k := range o.Mem {
@@ -1292,9 +1341,7 @@ func (st *State) bindOutcome(f *ssa.Function, o *Outcome, paramVal map[string]Va
 	for _, r := range o.Results {
 		res = append(res, st.instVal(r, paramVal, inst, objMap))
 	}
-	for _, e := range o.Events {
-		st.Events = append(st.Events, st.instEvent(e, paramVal, inst, objMap))
-	}
+	st.Events = append(st.Events, newEvents...)
 	return true, res
 }
 
@@ -1596,12 +1643,13 @@ func (st *State) writerCall(x *ssa.Call, name string, args []Val, resName string
 	if h, ok := ip.Hooks.(EmitHook); ok {
 		h.Emit(st, x, w, width, known, operand, opType, method)
 	}
+	off0 := st.Bits(w)
 	if known {
 		st.mem[w.ID+".#bits"] = IntVal(st.Bits(w).Add(width))
 	} else {
 		st.mem[w.ID+".#bits"] = IntVal(lin.Sym(ip.fresh(w.ID + "#bits?")))
 	}
-	st.Events = append(st.Events, Event{Kind: "emit", Obj: w.ID, Width: width, Val: operand, Type: types.TypeString(opType, nil), Pos: x.Pos(), ID: resName})
+	st.Events = append(st.Events, Event{Kind: "emit", Obj: w.ID, Off: off0, Width: width, Val: st.emitVal(operand, opType), Type: types.TypeString(opType, nil), Pos: x.Pos(), ID: resName})
 	return errRes(), true
 }
 
@@ -1703,4 +1751,15 @@ func (st *State) applyAbstract(x *ssa.Call, f *ssa.Function, spec AbstractSpec, 
 		return Val{K: KTuple, Tup: []Val{IntVal(q.AddC(spec.ExtraBits / 8)), errv}}
 	}
 	return st.opaqueResult(x, f.Name(), resName)
+}
+
+// emitVal attaches the operand's bits to the emitted value (TrackBits).
+func (st *State) emitVal(v Val, t types.Type) Val {
+	if !st.ip.TrackBits || v.Bits != nil {
+		return v
+	}
+	if vec, ok := st.VecOf(v, t); ok {
+		v.Bits = vec
+	}
+	return v
 }
